@@ -46,6 +46,14 @@ func main() {
 		tw := opdrv.NewTraceWriter(tf, fileOrNil(rf))
 		var div []string
 		for _, b := range behs {
+			// a behaviour generated for one router (cfg.router) is replayed on that router only:
+			// its names and predicted outcomes come from that router's decision procedure
+			if b.Cfg != nil && b.Cfg.Router != "" {
+				if strings.Contains(*routers, b.Cfg.Router) {
+					div = append(div, opdrv.ReplayBehaviour(w, b, b.Cfg.Router, tw)...)
+				}
+				continue
+			}
 			for _, r := range strings.Split(*routers, ",") {
 				div = append(div, opdrv.ReplayBehaviour(w, b, r, tw)...)
 			}
